@@ -64,6 +64,12 @@ Definition transparent (o : oracle) (r : response) : Prop :=
 (* a compiler that exits 0 has written its outputs *)
 Definition sane (o : oracle) : Prop := o_c_status o = 0 -> o_c_writes o = true.
 
+(* no internal fault: no storage call on the way to the result and none of sccache's own steps panics.
+   (A panicking result PUT is allowed: it is a failed write.) *)
+Definition calm (f : faults) (o : oracle) : Prop :=
+  f_ppget f <> PFPanic /\ f_ppupd f <> WPanic /\ f_ppput f <> WPanic /\ f_get f <> GPanic
+  /\ o_pp_panics o = false /\ o_c_panics o = false.
+
 Definition same_compile (a b : oracle) : Prop :=
   o_c_status a = o_c_status b /\ o_c_stdout a = o_c_stdout b /\ o_c_stderr a = o_c_stderr b
   /\ o_c_outputs a = o_c_outputs b /\ o_c_writes a = o_c_writes b.
@@ -97,6 +103,9 @@ Proof.
   destruct (kv_get pk (cs_pp st)) as [[k' m'| |]|]; try discriminate. intro H; inversion H; reflexivity.
 Qed.
 
+Definition panicky (f : faults) (o : oracle) : Prop :=
+  f_ppget f = PFPanic \/ f_ppupd f = WPanic \/ f_ppput f = WPanic \/ o_pp_panics o = true.
+
 Definition ghk_spec (f : faults) (cc : cache_control) (o : oracle) (st : cstate)
            (st1 : cstate) (res : hk_result) (pp : N) : Prop :=
   cs_res st1 = cs_res st /\ cs_ro st1 = cs_ro st /\
@@ -106,53 +115,66 @@ Definition ghk_spec (f : faults) (cc : cache_control) (o : oracle) (st : cstate)
          \/ exists pk, o_pp_key o = Some pk /\ cs_pp st1 = kv_set pk (PGood (o_key o) (o_manifest o)) (cs_pp st)))
     \/ (exists pk k, res = HKKey k /\ pp = 0 /\ cc = CCDefault /\ o_pp_key o = Some pk
                      /\ kv_get pk (cs_pp st) = Some (PGood k (o_manifest o))
-                     /\ (cs_pp st1 = cs_pp st \/ cs_pp st1 = kv_set pk (PGood k (o_manifest o)) (cs_pp st))) ).
+                     /\ (cs_pp st1 = cs_pp st \/ cs_pp st1 = kv_set pk (PGood k (o_manifest o)) (cs_pp st)))
+    \/ (res = HKFatal /\ panicky f o /\ cs_pp st1 = cs_pp st) ).
 
-Lemma ghk_preprocess f o st :
-  let st2 := match o_pp_key o with
-             | Some pk =>
-                 if o_manifest_ok o && put_ok (f_ppput f) st
-                 then {| cs_res := cs_res st; cs_pp := kv_set pk (PGood (o_key o) (o_manifest o)) (cs_pp st);
-                         cs_ro := cs_ro st |}
-                 else st
-             | None => st
-             end in
-  forall cc,
-  (if negb (o_pp_status o =? 0) then ghk_spec f cc o st st HKError 1
-   else ghk_spec f cc o st st2 (HKKey (o_key o)) 1).
+Lemma hk_preprocess_spec f cc o st :
+  let '(st2, res, pp) := hk_preprocess f o st in ghk_spec f cc o st st2 res pp.
 Proof.
-  intros st2 cc. destruct (o_pp_status o =? 0) eqn:E; simpl.
-  - apply N.eqb_eq in E. unfold ghk_spec. subst st2.
-    destruct (o_pp_key o) as [pk|]; [destruct (o_manifest_ok o && put_ok (f_ppput f) st)|]; simpl;
-      (split; [reflexivity|split; [reflexivity|]]); right; left; repeat split; auto.
-    right. exists pk. split; reflexivity.
-  - apply N.eqb_neq in E. unfold ghk_spec. split; [reflexivity|split; [reflexivity|]].
-    left. repeat split; auto.
+  unfold hk_preprocess, ghk_spec, panicky.
+  destruct (o_pp_panics o) eqn:Epan.
+  { split; [reflexivity|split; [reflexivity|]]. right; right; right. auto 6. }
+  destruct (o_pp_status o =? 0) eqn:E; simpl.
+  2:{ apply N.eqb_neq in E. split; [reflexivity|split; [reflexivity|]]. left. auto. }
+  apply N.eqb_eq in E.
+  destruct (o_pp_key o) as [pk|].
+  2:{ split; [reflexivity|split; [reflexivity|]]. right; left. auto. }
+  destruct (o_manifest_ok o).
+  2:{ split; [reflexivity|split; [reflexivity|]]. right; left. auto. }
+  destruct (f_ppput f) eqn:Ew;
+    try (destruct (put_ok _ st); simpl; (split; [reflexivity|split; [reflexivity|]]); right; left;
+         repeat split; auto; right; exists pk; split; reflexivity).
+  split; [reflexivity|split; [reflexivity|]]. right; right; right. auto 6.
+Qed.
+
+Lemma prelude_cases f cc o st :
+  match hk_prelude f cc o st with
+  | None => f_ppget f = PFPanic \/ f_ppupd f = WPanic
+  | Some (st1, Some k) =>
+      cs_res st1 = cs_res st /\ cs_ro st1 = cs_ro st /\
+      exists pk, cc = CCDefault /\ o_pp_key o = Some pk
+                 /\ kv_get pk (cs_pp st) = Some (PGood k (o_manifest o))
+                 /\ (cs_pp st1 = cs_pp st \/ cs_pp st1 = kv_set pk (PGood k (o_manifest o)) (cs_pp st))
+  | Some (st1, None) => st1 = st
+  end.
+Proof.
+  unfold hk_prelude.
+  destruct (o_pp_key o) as [pk|] eqn:Epk; [|reflexivity].
+  destruct cc; try reflexivity.
+  destruct (f_ppget f) eqn:Eg; try (left; reflexivity);
+    (destruct (pp_read f pk st) as [[k m]|] eqn:Er; [|reflexivity];
+     apply pp_read_some in Er;
+     destruct (m =? o_manifest o) eqn:Em; [|reflexivity];
+     apply N.eqb_eq in Em; subst m;
+     destruct (o_upd o);
+     [ destruct (f_ppupd f) eqn:Eu; try (right; reflexivity);
+       (destruct (put_ok _ st); [|reflexivity]);
+       simpl; (split; [reflexivity|split; [reflexivity|]]); exists pk; auto 6
+     | simpl; (split; [reflexivity|split; [reflexivity|]]); exists pk; auto 6 ]).
 Qed.
 
 Lemma ghk_ok f cc o st :
   let '(st1, res, pp) := generate_hash_key f cc o st in ghk_spec f cc o st st1 res pp.
 Proof.
-  pose proof (ghk_preprocess f o st) as P. cbv zeta in P.
   unfold generate_hash_key.
-  destruct (o_pp_key o) as [pk|] eqn:Epk.
-  2:{ specialize (P cc). destruct (negb (o_pp_status o =? 0)); exact P. }
-  destruct cc.
-  - destruct (pp_read f pk st) as [[k m]|] eqn:Er.
-    2:{ specialize (P CCDefault). destruct (negb (o_pp_status o =? 0)); exact P. }
-    apply pp_read_some in Er.
-    destruct (m =? o_manifest o) eqn:Em.
-    2:{ specialize (P CCDefault). destruct (negb (o_pp_status o =? 0)); exact P. }
-    apply N.eqb_eq in Em; subst m.
-    destruct (o_upd o).
-    + destruct (put_ok (f_ppupd f) st).
-      * unfold ghk_spec; simpl. split; [reflexivity|split; [reflexivity|]].
-        right; right. exists pk, k. repeat split; auto.
-      * specialize (P CCDefault). destruct (negb (o_pp_status o =? 0)); exact P.
-    + unfold ghk_spec; simpl. split; [reflexivity|split; [reflexivity|]].
-      right; right. exists pk, k. repeat split; auto.
-  - specialize (P CCForceRecache). destruct (negb (o_pp_status o =? 0)); exact P.
-  - specialize (P CCForceNoCache). destruct (negb (o_pp_status o =? 0)); exact P.
+  pose proof (prelude_cases f cc o st) as P.
+  destruct (hk_prelude f cc o st) as [[st1 [k|]]|].
+  - destruct P as (H1 & H2 & pk & Hcc & Hpk & Hg & Hs).
+    unfold ghk_spec. split; [exact H1|split; [exact H2|]].
+    right; right; left. exists pk, k. auto 8.
+  - subst st1. apply hk_preprocess_spec.
+  - unfold ghk_spec, panicky. split; [reflexivity|split; [reflexivity|]].
+    right; right; right. destruct P; auto 6.
 Qed.
 
 (* under the invariant a key obtained from the preprocessor cache is the unit's own key, and its
@@ -160,11 +182,12 @@ Qed.
 Lemma ghk_key w st t f cc st1 k pp :
   Inv w st -> ghk_spec f cc (w t) st st1 (HKKey k) pp -> o_pp_status (w t) = 0 /\ k = o_key (w t).
 Proof.
-  intros HI (_ & _ & [(H & _)|[(H & _ & Hs & _)|(pk & k' & H & _ & _ & Hpk & Hg & _)]]).
+  intros HI (_ & _ & [(H & _)|[(H & _ & Hs & _)|[(pk & k' & H & _ & _ & Hpk & Hg & _)|(H & _)]]]).
   - discriminate.
   - inversion H; subst. split; auto.
   - inversion H; subst k'. apply kv_get_In in Hg.
     destruct (HI t) as [Hpp _]. eapply Hpp; eauto.
+  - discriminate.
 Qed.
 
 Lemma ghk_Inv w st t f cc st1 res pp :
@@ -176,7 +199,7 @@ Proof.
   intros pk' k' m' Hpk' Hin Hm'.
   assert (Hold : cs_pp st1 = cs_pp st -> o_pp_status (w t') = 0 /\ k' = o_key (w t')).
   { intro E. rewrite E in Hin. eapply Ipp; eauto. }
-  destruct Hcases as [(_ & _ & _ & E)|[(_ & _ & Hps & [E|(pk & Hpk & E)])|(pk & k & _ & _ & _ & Hpk & Hg & [E|E])]];
+  destruct Hcases as [(_ & _ & _ & E)|[(_ & _ & Hps & [E|(pk & Hpk & E)])|[(pk & k & _ & _ & _ & Hpk & Hg & [E|E])|(_ & _ & E)]]];
     try (apply Hold; exact E).
   - rewrite E in Hin. apply kv_set_In in Hin. destruct Hin as [[-> Hv]|Hin]; [|eapply Ipp; eauto].
     injection Hv as Hk' Hmm.
@@ -194,6 +217,7 @@ Lemma compile_Inv w st1 t f pp mt :
   consistent w -> Inv w st1 -> Inv w (fst (compile_and_store f (w t) st1 (o_key (w t)) pp mt)).
 Proof.
   intros HC HI1. unfold compile_and_store.
+  destruct (o_c_panics (w t)); [exact HI1|].
   destruct (negb (o_c_status (w t) =? 0)) eqn:Ecs; [exact HI1|].
   apply negb_false_iff, N.eqb_eq in Ecs.
   assert (Hstored : o_c_writes (w t) = true ->
@@ -218,7 +242,7 @@ Proof.
   pose proof (ghk_ok f cc (w t) st) as G.
   destruct (generate_hash_key f cc (w t) st) as [[st1 res] pp].
   pose proof (ghk_Inv _ _ _ _ _ _ _ _ HC HI G) as HI1.
-  destruct res as [|k]; [exact HI1|].
+  destruct res as [|k|]; [exact HI1| |exact HI1].
   destruct (ghk_key _ _ _ _ _ _ _ _ HI G) as [Hps Hk]. subst k.
   destruct (cache_lookup f cc (o_key (w t)) st1) as [so se outs|mt|]; try exact HI1.
   apply compile_Inv; assumption.
@@ -247,9 +271,9 @@ Lemma direct_ok o :
 Proof. intros H1 H2. unfold direct. rewrite H1, H2. reflexivity. Qed.
 
 Lemma compile_transparent o f st1 k pp mt :
-  sane o -> o_pp_status o = 0 -> transparent o (snd (compile_and_store f o st1 k pp mt)).
+  sane o -> o_pp_status o = 0 -> o_c_panics o = false -> transparent o (snd (compile_and_store f o st1 k pp mt)).
 Proof.
-  intros HS Hps. unfold compile_and_store.
+  intros HS Hps Hcp. unfold compile_and_store. rewrite Hcp.
   destruct (o_c_status o =? 0) eqn:Ecs; simpl.
   - apply N.eqb_eq in Ecs. specialize (HS Ecs).
     assert (D : direct o = (0, o_c_stdout o, o_c_stderr o, o_c_outputs o)).
@@ -263,36 +287,99 @@ Qed.
 
 (* THE transparency lemma: for every fault assignment *)
 Lemma execute_transparent w st t f cc :
-  consistent w -> Inv w st -> sane (w t) -> f_outdir_ok f = true ->
+  consistent w -> Inv w st -> sane (w t) -> f_outdir_ok f = true -> calm f (w t) ->
   transparent (w t) (snd (execute f cc (w t) st)).
 Proof.
-  intros HC HI HS HO. unfold execute.
+  intros HC HI HS HO (C1 & C2 & C3 & C4 & C5 & C6). unfold execute.
   pose proof (ghk_ok f cc (w t) st) as G.
   destruct (generate_hash_key f cc (w t) st) as [[st1 res] pp].
-  destruct res as [|k].
+  destruct res as [|k|].
   - (* the preprocessor failed *)
-    destruct G as (_ & _ & [(_ & _ & Hps & _)|[(H & _)|(pk & k & H & _)]]); try discriminate.
+    destruct G as (_ & _ & [(_ & _ & Hps & _)|[(H & _)|[(pk & k & H & _)|(H & _)]]]); try discriminate.
     unfold transparent; simpl. rewrite direct_ppfail by assumption. reflexivity.
   - destruct (ghk_key _ _ _ _ _ _ _ _ HI G) as [Hps Hk]. subst k.
     destruct G as (Hres & _ & _).
-    pose proof (fun mt => compile_transparent (w t) f st1 (o_key (w t)) pp mt HS Hps) as Hcompile.
+    pose proof (fun mt => compile_transparent (w t) f st1 (o_key (w t)) pp mt HS Hps C6) as Hcompile.
     unfold cache_lookup. rewrite HO, Hres.
     destruct cc; try apply Hcompile.
-    destruct (f_get f); try apply Hcompile.
+    destruct (f_get f); try apply Hcompile; try (exfalso; apply C4; reflexivity).
     destruct (kv_get (o_key (w t)) (cs_res st)) as [[so se outs| | | |]|] eqn:Eg; try apply Hcompile.
     (* a hit: the entry is the unit's own successful result *)
     apply kv_get_In in Eg. destruct (HI t) as [_ Ires].
     destruct (Ires _ _ _ Eg) as (Hcs & Hw & -> & -> & ->).
     unfold transparent; simpl. rewrite direct_ok by assumption. rewrite Hw. reflexivity.
+  - (* no panic: impossible *)
+    destruct G as (_ & _ & [(H & _)|[(H & _)|[(pk & k & H & _)|(_ & [P|[P|[P|P]]] & _)]]]); try discriminate;
+      try contradiction. rewrite C5 in P. discriminate.
 Qed.
 
 Theorem request_transparent w st t f cl cc :
-  consistent w -> Inv w st -> sane (w t) -> f_outdir_ok f = true ->
+  consistent w -> Inv w st -> sane (w t) -> f_outdir_ok f = true -> calm f (w t) ->
   transparent (w t) (snd (fst (request f cl cc (w t) st))).
 Proof.
-  intros HC HI HS HO. unfold request. destruct cl; simpl; try exact I.
-  pose proof (execute_transparent w st t f cc HC HI HS HO) as H.
+  intros HC HI HS HO HCalm. unfold request. destruct cl; simpl; try exact I.
+  pose proof (execute_transparent w st t f cc HC HI HS HO HCalm) as H.
   destruct (execute f cc (w t) st) as [st' r]. exact H.
+Qed.
+
+(* Without [calm]: an internal panic is caught and REPORTED ("encountered fatal error", counted under
+   cache_errors); the client never receives a wrong result. *)
+Lemma compile_answered o f st1 k pp mt :
+  sane o -> o_pp_status o = 0 ->
+  let r := snd (compile_and_store f o st1 k pp mt) in transparent o r \/ r_client r = CFatal.
+Proof.
+  intros HS Hps. cbv zeta. destruct (o_c_panics o) eqn:Hcp.
+  - right. unfold compile_and_store. rewrite Hcp. reflexivity.
+  - left. apply compile_transparent; assumption.
+Qed.
+
+Lemma execute_answered w st t f cc :
+  consistent w -> Inv w st -> sane (w t) -> f_outdir_ok f = true ->
+  let r := snd (execute f cc (w t) st) in transparent (w t) r \/ r_client r = CFatal.
+Proof.
+  intros HC HI HS HO. cbv zeta. unfold execute.
+  pose proof (ghk_ok f cc (w t) st) as G.
+  destruct (generate_hash_key f cc (w t) st) as [[st1 res] pp].
+  destruct res as [|k|]; [| |right; reflexivity].
+  - left.
+    destruct G as (_ & _ & [(_ & _ & Hps & _)|[(H & _)|[(pk & k & H & _)|(H & _)]]]); try discriminate.
+    unfold transparent; simpl. rewrite direct_ppfail by assumption. reflexivity.
+  - destruct (ghk_key _ _ _ _ _ _ _ _ HI G) as [Hps Hk]. subst k.
+    destruct G as (Hres & _ & _).
+    pose proof (fun mt => compile_answered (w t) f st1 (o_key (w t)) pp mt HS Hps) as Hcompile. cbv zeta in Hcompile.
+    unfold cache_lookup. rewrite HO, Hres.
+    destruct cc; try apply Hcompile.
+    destruct (f_get f); try apply Hcompile; try (right; reflexivity).
+    destruct (kv_get (o_key (w t)) (cs_res st)) as [[so se outs| | | |]|] eqn:Eg; try apply Hcompile.
+    left. apply kv_get_In in Eg. destruct (HI t) as [_ Ires].
+    destruct (Ires _ _ _ Eg) as (Hcs & Hw & -> & -> & ->).
+    unfold transparent; simpl. rewrite direct_ok by assumption. rewrite Hw. reflexivity.
+Qed.
+
+Lemma request_answered w st t f cl cc :
+  consistent w -> Inv w st -> sane (w t) -> f_outdir_ok f = true ->
+  transparent (w t) (snd (fst (request f cl cc (w t) st))) \/ r_client (snd (fst (request f cl cc (w t) st))) = CFatal.
+Proof.
+  intros HC HI HS HO. unfold request. destruct cl; simpl; try (left; exact I).
+  pose proof (execute_answered w st t f cc HC HI HS HO) as H. cbv zeta in H.
+  destruct (execute f cc (w t) st) as [st' r]. exact H.
+Qed.
+
+(* a panic inside the task ends in the error class of the statistics *)
+Lemma execute_panic_is_error f cc o st :
+  r_client (snd (execute f cc o st)) = CFatal -> r_outcome (snd (execute f cc o st)) = Some OFatal.
+Proof.
+  unfold execute.
+  destruct (generate_hash_key f cc o st) as [[st1 res] pp].
+  destruct res as [|k|]; simpl; try discriminate; try reflexivity.
+  destruct (cache_lookup f cc k st1) as [so se outs|mt|]; simpl; try discriminate; try reflexivity.
+  unfold compile_and_store.
+  destruct (o_c_panics o); simpl; [reflexivity|].
+  destruct (negb (o_c_status o =? 0)); simpl; [discriminate|].
+  destruct mt; simpl; try discriminate;
+    destruct (negb (o_cacheable o)); simpl; try discriminate;
+    destruct (negb (o_c_writes o)); simpl; try reflexivity;
+    destruct (put_ok (f_put f) st1); simpl; discriminate.
 Qed.
 
 (* ---------- failed compilations are never stored ---------- *)
@@ -304,9 +391,9 @@ Proof.
   pose proof (ghk_ok f cc o st) as G.
   destruct (generate_hash_key f cc o st) as [[st1 res] pp].
   destruct G as (Hres & _).
-  destruct res as [|k]; simpl; [exact Hres|].
+  destruct res as [|k|]; simpl; [exact Hres| |exact Hres].
   destruct (cache_lookup f cc k st1); simpl; try exact Hres.
-  unfold compile_and_store. rewrite H. simpl. exact Hres.
+  unfold compile_and_store. destruct (o_c_panics o); [exact Hres|]. rewrite H. simpl. exact Hres.
 Qed.
 
 Theorem failed_never_stored_cc f cl cc o st :
@@ -330,9 +417,10 @@ Proof.
   unfold execute.
   pose proof (ghk_ok f cc (w t) st) as G.
   destruct (generate_hash_key f cc (w t) st) as [[st1 res] pp].
-  destruct res as [|k].
+  destruct res as [|k|].
   - destruct G as (Hres & _). exact Hres.
   - destruct (ghk_key _ _ _ _ _ _ _ _ HI G) as [H0 _]. contradiction.
+  - destruct G as (Hres & _). exact Hres.
 Qed.
 
 (* ---------- after the faults stop ---------- *)
@@ -341,32 +429,46 @@ Definition is_hit_of (o : oracle) (r : response) : Prop :=
   r_client r = CFinished 0 (o_c_stdout o) (o_c_stderr o) /\ r_outputs r = o_c_outputs o
   /\ r_cc_runs r = 0 /\ r_outcome r = Some OHit.
 
+Definition calm_oracle (o : oracle) : Prop := o_pp_panics o = false /\ o_c_panics o = false.
+
+Lemma calm_no_faults o : calm_oracle o -> calm no_faults o.
+Proof. intros [H1 H2]. unfold calm; simpl. repeat split; try discriminate; assumption. Qed.
+
+(* with fault-free storage and a calm oracle the hash key phase does not end in a panic *)
+Lemma ghk_calm_not_fatal f cc o st st1 pp :
+  calm f o -> ghk_spec f cc o st st1 HKFatal pp -> False.
+Proof.
+  intros (C1 & C2 & C3 & _ & C5 & _) (_ & _ & [(H & _)|[(H & _)|[(pk & k & H & _)|(_ & [P|[P|[P|P]]] & _)]]]);
+    try discriminate; try contradiction. rewrite C5 in P. discriminate.
+Qed.
+
 Lemma compile_clean_stores o st1 pp mt :
-  sane o -> cs_ro st1 = false -> o_c_status o = 0 -> o_cacheable o = true -> mt <> MForcedNoCache ->
+  sane o -> o_c_panics o = false -> cs_ro st1 = false -> o_c_status o = 0 -> o_cacheable o = true -> mt <> MForcedNoCache ->
   let r := compile_and_store no_faults o st1 (o_key o) pp mt in
   kv_get (o_key o) (cs_res (fst r)) = Some (RGood (o_c_stdout o) (o_c_stderr o) (o_c_outputs o))
   /\ cs_ro (fst r) = false.
 Proof.
-  intros HS Hro1 Hcs Hca Hmt. specialize (HS Hcs). cbv zeta. unfold compile_and_store.
-  rewrite Hcs, Hca, HS. simpl. unfold put_ok; simpl. rewrite Hro1. simpl.
+  intros HS Hcp Hro1 Hcs Hca Hmt. specialize (HS Hcs). cbv zeta. unfold compile_and_store.
+  rewrite Hcp, Hcs, Hca, HS. simpl. unfold put_ok; simpl. rewrite Hro1. simpl.
   destruct mt; try contradiction; simpl; (split; [apply kv_get_set_same | reflexivity]).
 Qed.
 
 Lemma execute_clean_stores w st t :
-  consistent w -> Inv w st -> sane (w t) -> cs_ro st = false ->
+  consistent w -> Inv w st -> sane (w t) -> calm_oracle (w t) -> cs_ro st = false ->
   o_pp_status (w t) = 0 -> o_c_status (w t) = 0 -> o_cacheable (w t) = true ->
   let st1 := fst (execute no_faults CCDefault (w t) st) in
   kv_get (o_key (w t)) (cs_res st1) = Some (RGood (o_c_stdout (w t)) (o_c_stderr (w t)) (o_c_outputs (w t)))
   /\ cs_ro st1 = false.
 Proof.
-  intros HC HI HS Hro Hps Hcs Hca. cbv zeta. unfold execute.
+  intros HC HI HS HCO Hro Hps Hcs Hca. cbv zeta. unfold execute.
   pose proof (ghk_ok no_faults CCDefault (w t) st) as G.
   destruct (generate_hash_key no_faults CCDefault (w t) st) as [[st1 res] pp].
-  destruct res as [|k].
-  { destruct G as (_ & _ & [(_ & _ & H & _)|[(H & _)|(pk & k & H & _)]]); try discriminate. contradiction. }
+  destruct res as [|k|].
+  { destruct G as (_ & _ & [(_ & _ & H & _)|[(H & _)|[(pk & k & H & _)|(H & _)]]]); try discriminate. contradiction. }
+  2:{ exfalso. eapply ghk_calm_not_fatal; [apply calm_no_faults; exact HCO | exact G]. }
   destruct (ghk_key _ _ _ _ _ _ _ _ HI G) as [_ Hk]. subst k.
   destruct G as (Hres & Hro1 & _). rewrite Hro in Hro1.
-  pose proof (fun mt => compile_clean_stores (w t) st1 pp mt HS Hro1 Hcs Hca) as Hmiss. cbv zeta in Hmiss.
+  pose proof (fun mt => compile_clean_stores (w t) st1 pp mt HS (proj2 HCO) Hro1 Hcs Hca) as Hmiss. cbv zeta in Hmiss.
   unfold cache_lookup; simpl f_get; simpl f_outdir_ok. rewrite Hres.
   destruct (kv_get (o_key (w t)) (cs_res st)) as [[so se outs| | | |]|] eqn:Eg;
     try (apply Hmiss; discriminate).
@@ -376,17 +478,18 @@ Proof.
 Qed.
 
 Lemma execute_hit w st t :
-  Inv w st ->
+  Inv w st -> calm_oracle (w t) ->
   kv_get (o_key (w t)) (cs_res st) = Some (RGood (o_c_stdout (w t)) (o_c_stderr (w t)) (o_c_outputs (w t))) ->
   o_pp_status (w t) = 0 ->
   let '(st2, r) := execute no_faults CCDefault (w t) st in
   is_hit_of (w t) r /\ cs_res st2 = cs_res st.
 Proof.
-  intros HI Hg Hps. unfold execute.
+  intros HI HCO Hg Hps. unfold execute.
   pose proof (ghk_ok no_faults CCDefault (w t) st) as G.
   destruct (generate_hash_key no_faults CCDefault (w t) st) as [[st1 res] pp].
-  destruct res as [|k].
-  { destruct G as (_ & _ & [(_ & _ & H & _)|[(H & _)|(pk & k & H & _)]]); try discriminate. contradiction. }
+  destruct res as [|k|].
+  { destruct G as (_ & _ & [(_ & _ & H & _)|[(H & _)|[(pk & k & H & _)|(H & _)]]]); try discriminate. contradiction. }
+  2:{ exfalso. eapply ghk_calm_not_fatal; [apply calm_no_faults; exact HCO | exact G]. }
   destruct (ghk_key _ _ _ _ _ _ _ _ HI G) as [_ Hk]. subst k.
   destruct G as (Hres & _ & _).
   unfold cache_lookup; simpl f_get; simpl f_outdir_ok. rewrite Hres, Hg. simpl.
@@ -394,7 +497,7 @@ Proof.
 Qed.
 
 Theorem repopulates w st t :
-  consistent w -> Inv w st -> sane (w t) -> cs_ro st = false ->
+  consistent w -> Inv w st -> sane (w t) -> calm_oracle (w t) -> cs_ro st = false ->
   o_pp_status (w t) = 0 -> o_c_status (w t) = 0 -> o_cacheable (w t) = true ->
   let '(st1, r1, _) := request no_faults QCompile CCDefault (w t) st in
   let '(st2, r2, _) := request no_faults QCompile CCDefault (w t) st1 in
@@ -404,13 +507,13 @@ Theorem repopulates w st t :
   (* ... and the one after it is served from the cache, without running the compiler *)
   /\ is_hit_of (w t) r2 /\ transparent (w t) r2.
 Proof.
-  intros HC HI HS Hro Hps Hcs Hca.
-  pose proof (execute_clean_stores w st t HC HI HS Hro Hps Hcs Hca) as [Hst Hro1].
-  pose proof (execute_transparent w st t no_faults CCDefault HC HI HS eq_refl) as T1.
+  intros HC HI HS HCO Hro Hps Hcs Hca.
+  pose proof (execute_clean_stores w st t HC HI HS HCO Hro Hps Hcs Hca) as [Hst Hro1].
+  pose proof (execute_transparent w st t no_faults CCDefault HC HI HS eq_refl (calm_no_faults _ HCO)) as T1.
   pose proof (execute_Inv w st t no_faults CCDefault HC HI) as HI1.
   unfold request. destruct (execute no_faults CCDefault (w t) st) as [st1 r1]. simpl in *.
-  pose proof (execute_hit w st1 t HI1 Hst Hps) as Hh.
-  pose proof (execute_transparent w st1 t no_faults CCDefault HC HI1 HS eq_refl) as T2.
+  pose proof (execute_hit w st1 t HI1 HCO Hst Hps) as Hh.
+  pose proof (execute_transparent w st1 t no_faults CCDefault HC HI1 HS eq_refl (calm_no_faults _ HCO)) as T2.
   destruct (execute no_faults CCDefault (w t) st1) as [st2 r2]. simpl in *.
   destruct Hh as [Hh _]. repeat split; try assumption; apply Hh.
 Qed.
@@ -462,7 +565,11 @@ Fixpoint history_ok (w : world) (st : cstate) (ss : list step) : Prop :=
   | s :: r =>
       let '(st1, o1) := run_step w st s in
       match s, o1 with
-      | SReq t f _ _, Some (rsp, _) => (f_outdir_ok f = true -> transparent (w t) rsp)
+      | SReq t f _ _, Some (rsp, _) =>
+          (* every request is answered: with the compiler's own result, or — only if something inside the server
+             panicked — with a reported fatal error, never with a wrong result *)
+          (f_outdir_ok f = true -> calm f (w t) -> transparent (w t) rsp)
+          /\ (f_outdir_ok f = true -> transparent (w t) rsp \/ r_client rsp = CFatal)
       | _, _ => True
       end /\ history_ok w st1 r
   end.
@@ -475,7 +582,8 @@ Proof.
   destruct (run_step w st s) as [st1 o1] eqn:E. simpl in HI1. split; [|apply IH; exact HI1].
   destruct s as [t f cl cc|d t|d t|ro]; try (destruct o1 as [[? ?]|]; exact I).
   simpl in E. pose proof (request_transparent w st t f cl cc HC HI (HS t)) as T.
-  destruct (request f cl cc (w t) st) as [[st' rsp] a]. inversion E; subst. exact T.
+  pose proof (request_answered w st t f cl cc HC HI (HS t)) as A.
+  destruct (request f cl cc (w t) st) as [[st' rsp] a]. inversion E; subst. split; [exact T | exact A].
 Qed.
 
 (* ---------- the counters agree with what happened ---------- *)
@@ -491,9 +599,10 @@ Lemma execute_runs f cc o st :
 Proof.
   cbv zeta. unfold execute.
   destruct (generate_hash_key f cc o st) as [[st1 res] pp].
-  destruct res as [|k]; simpl; [reflexivity|].
+  destruct res as [|k|]; simpl; [reflexivity| |auto].
   destruct (cache_lookup f cc k st1) as [so se outs|mt|]; simpl; auto.
   unfold compile_and_store.
+  destruct (o_c_panics o); simpl; [auto|].
   destruct (negb (o_c_status o =? 0)); simpl; [reflexivity|].
   destruct mt; simpl; try reflexivity;
     destruct (negb (o_cacheable o)); simpl; try reflexivity;
@@ -515,7 +624,7 @@ Definition demo_oracle (t : N) : oracle :=
   {| o_lang := {| l_lang := 0; l_adv := 0 |}; o_pp_key := Some [t]; o_manifest := 7; o_upd := N.odd t;
      o_pp_status := 0; o_pp_stderr := []; o_manifest_ok := true; o_key := [t; t];
      o_c_status := 0; o_c_stdout := [1; t]; o_c_stderr := [2; t]; o_c_outputs := [([111], [3; t])];
-     o_c_writes := true; o_cacheable := true |}.
+     o_c_writes := true; o_cacheable := true; o_pp_panics := false; o_c_panics := false |}.
 
 Lemma demo_consistent : consistent demo_oracle.
 Proof.
@@ -527,3 +636,6 @@ Qed.
 
 Lemma demo_sane t : sane (demo_oracle t).
 Proof. intro; reflexivity. Qed.
+
+Lemma demo_calm t : calm_oracle (demo_oracle t).
+Proof. split; reflexivity. Qed.
